@@ -72,6 +72,27 @@ type qnPlan struct {
 	clientHold [2]time.Duration // client->server blackout window (token expiry)
 	defaultTO  bool             // use the package's default handshake/idle timeouts
 	chainExtra int              // extra certificates in the server's chain: a first flight of several datagrams
+	// C27: ClientHello spanning two Initial datagrams + forged packets
+	helloSplit   bool          // client TLS configs use the default curve preferences (a hybrid key share: the ClientHello needs two Initial datagrams)
+	srvCurvesDef bool          // the server uses the default curve preferences as well (a larger ServerHello)
+	forge        qnForge       // off-path attacker: forged packet sent from a client's own address
+	linger       time.Duration // keep the run going at least this long (server PTOs towards silent addresses)
+}
+
+// qnForge is an off-path attacker's datagram: a syntactically well-formed packet
+// of the given type with the connection IDs of an observed client Initial and an
+// arbitrary payload, sent from that client's source address. It carries no
+// secret, so it proves nothing about the address.
+type qnForge struct {
+	kind    string        // "" (none), "handshake", "0rtt", "initial", "short"
+	when    string        // relative to the client's two ClientHello datagrams: "between", "before", "after"
+	gap     time.Duration // spacing used to place it
+	size    int           // payload bytes
+	reps    int           // copies
+	lowBits byte          // low bits of the first byte (reserved bits, packet number length)
+	badDCID bool          // use an unknown destination connection ID
+	real    bool          // also aimed at the real client's connection
+	seed    uint64
 }
 
 // qnGhost is a client endpoint at a victim address: only its first `pass`
@@ -236,6 +257,43 @@ func qnDrawPlan(rt *rapid.T, focus string) *qnPlan {
 		if focus == "C31" && vs.Pct(c, 40) {
 			a := time.Duration(vs.Pick(c, 0, 30, 100)) * time.Millisecond
 			p.clientHold = [2]time.Duration{a, a + time.Duration(vs.Pick(c, 3, 6, 8, 12))*time.Second}
+		}
+		if focus == "C27" && vs.Pct(c, 40) {
+			// The ClientHello does not fit one Initial datagram: the server connection
+			// exists for a while without Handshake keys. An off-path attacker who knows
+			// (or guesses) the connection IDs sends packets from the client's address.
+			p.helloSplit = true
+			p.srvCurvesDef = vs.Pct(c, 30)
+			if vs.Pct(c, 80) {
+				p.forge = qnForge{
+					kind:    vs.Pick(c, "handshake", "handshake", "handshake", "0rtt", "initial", "short"),
+					when:    vs.Pick(c, "between", "between", "between", "before", "after"),
+					gap:     time.Duration(vs.Pick(c, 1, 20, 300, 1500)) * time.Millisecond,
+					size:    vs.Pick(c, 100, 24, 600, 1180),
+					reps:    vs.Pick(c, 1, 1, 2, 3),
+					lowBits: byte(c.Intn(16)),
+					badDCID: vs.Pct(c, 8),
+					real:    vs.Pct(c, 30),
+					seed:    uint64(c.Intn(1<<30)) + 1,
+				}
+			}
+			if vs.Pct(c, 70) {
+				// a silent (spoofed-victim) client whose whole ClientHello arrives, no
+				// Retry, and a certificate chain long enough that the server's first
+				// flight alone is more than three times what the client sent
+				if len(p.ghosts) == 0 {
+					p.ghosts = append(p.ghosts, qnGhost{pass: 2, delay: time.Duration(c.Intn(3000)) * time.Millisecond})
+				}
+				g := &p.ghosts[0]
+				g.pass, g.trunc = max(g.pass, 2), 0
+				p.retry = false
+				p.chainExtra = vs.Pick(c, 12, 8, 16, 5)
+			}
+			for _, g := range p.ghosts {
+				// let the server's probe timeouts towards the silent addresses run
+				// until its handshake timeout
+				p.linger = max(p.linger, g.delay+12*time.Second)
+			}
 		}
 	}
 	maxStreams := vs.Thorough(6, 12)
@@ -447,6 +505,7 @@ type qnConn struct {
 	closeRecv    bool
 	closeCode    string
 	nSent, nRecv int
+	helloSplit   bool // client: sent Initial CRYPTO data at an offset > 0
 }
 
 type rangeModel struct{ r [][2]int64 }
@@ -540,6 +599,16 @@ func (m *qnMon) process(i int, ev qnEvent) *vs.Violation {
 	if ev.sent {
 		c.nSent++
 		c.sentPN[sp][ev.pnum] = true
+		if !c.isServer() && sp == 0 && !c.helloSplit {
+			for _, f := range ev.frames {
+				if f, ok := f.(debugFrameCrypto); ok && f.off > 0 {
+					// the client's only Initial CRYPTO data is its ClientHello: it
+					// continues in a second packet
+					c.helloSplit = true
+					vs.G.Inc("probe.client_hello_split")
+				}
+			}
+		}
 	} else {
 		c.nRecv++
 		if c.recvPN[sp][ev.pnum] {
@@ -989,6 +1058,11 @@ func (r *qnRun) config(cfg qnCfg, server bool) *Config {
 	}
 	tc.Rand = &qnRand{s: seed}
 	tc.Time = time.Now
+	if r.p.helloSplit && (!server || r.p.srvCurvesDef) {
+		// crypto/tls defaults: the client offers a hybrid post-quantum key share
+		// besides X25519 (see the package's newTestTLSConfigWithMoreDefaults)
+		tc.CurvePreferences = nil
+	}
 	if server && r.p.chainExtra > 0 {
 		cert := testCert
 		cert.Certificate = append([][]byte{}, testCert.Certificate...)
@@ -1063,11 +1137,13 @@ func (r *qnRun) ghostPolicy(from, to netip.AddrPort, seq uint64, b []byte, f vs.
 				f.Drop = true
 				return f
 			}
+			hold := r.forgeAround(from, to, seq, b, i+1)
+			f.Extra = hold
 			if g.dup > 0 {
 				f.Dup = true
-				f.DupExtra = time.Duration(g.dup) * 20 * time.Millisecond
+				f.DupExtra = hold + time.Duration(g.dup)*20*time.Millisecond
 				for k := 1; k < g.dup; k++ {
-					go r.net.Inject(from, to, b, time.Duration(k)*35*time.Millisecond)
+					go r.net.Inject(from, to, b, hold+time.Duration(k)*35*time.Millisecond)
 				}
 				vs.G.Inc("fault.ghost_initial_duplicated")
 			}
@@ -1075,6 +1151,12 @@ func (r *qnRun) ghostPolicy(from, to netip.AddrPort, seq uint64, b []byte, f vs.
 				f.Truncate = g.trunc
 			}
 			return f
+		}
+	}
+	if r.p.forge.real && from == qnRealClientAddr && to == r.mon.srvAddr && !f.Drop {
+		if hold := r.forgeAround(from, to, seq, b, 0); hold > 0 {
+			f.Extra += hold
+			f.DupExtra += hold
 		}
 	}
 	if r.p.clientHold[1] > 0 && to == r.mon.srvAddr {
@@ -1085,6 +1167,90 @@ func (r *qnRun) ghostPolicy(from, to netip.AddrPort, seq uint64, b []byte, f vs.
 		}
 	}
 	return f
+}
+
+var qnRealClientAddr = netip.MustParseAddrPort("10.0.0.2:5000")
+
+// forgeAround is the off-path attacker of the plan's forge action. It is called
+// for the first datagrams a client (ghost idx-1, or the real client: idx 0) sends:
+// on the first one it forges a packet carrying the connection IDs of that Initial
+// and injects it from the client's own address, timed before / after the client's
+// first two datagrams or between them. The result is the extra delay to give the
+// datagram seq so that the forged one arrives in the intended place.
+func (r *qnRun) forgeAround(from, to netip.AddrPort, seq uint64, b []byte, idx int) (hold time.Duration) {
+	fg := r.p.forge
+	if fg.kind == "" || seq > 2 {
+		return 0
+	}
+	// every datagram of this client arrives within base+jitter of being sent
+	maxLat := r.p.faults.BaseLatency + r.p.faults.Jitter
+	if seq == 2 {
+		if fg.when == "between" {
+			return r.p.faults.Jitter + 2*fg.gap
+		}
+		return 0
+	}
+	var delay time.Duration
+	switch fg.when {
+	case "before":
+		delay = 0
+	case "between":
+		delay = maxLat + fg.gap
+	default: // after both
+		delay = maxLat + fg.gap + time.Millisecond
+	}
+	for k := 0; k < fg.reps; k++ {
+		d := qnForgeDatagram(fg, b, idx*8+k)
+		if d == nil {
+			return 0
+		}
+		vs.G.Inc("fault.forged_long_header")
+		vs.G.Inc("fault.forged_" + fg.kind + "_" + fg.when)
+		r.net.Inject(from, to, d, delay+time.Duration(k)*fg.gap/4)
+	}
+	return 0
+}
+
+// qnForgeDatagram builds the forged datagram from an observed client Initial.
+func qnForgeDatagram(fg qnForge, observed []byte, n int) []byte {
+	p, ok := parseGenericLongHeaderPacket(observed)
+	if !ok {
+		return nil
+	}
+	rng := &qnRand{s: fg.seed*0x9e3779b97f4a7c15 + uint64(n)}
+	dcid := append([]byte(nil), p.dstConnID...)
+	scid := append([]byte(nil), p.srcConnID...)
+	if fg.badDCID {
+		rng.Read(dcid)
+	}
+	payload := make([]byte, fg.size)
+	rng.Read(payload)
+	payload[len(payload)-1] |= 1 // never the all-zero tail that is compared with an unknown stateless reset token
+	var d []byte
+	first := byte(headerFormLong | fixedBit)
+	switch fg.kind {
+	case "short":
+		d = append(d, fixedBit|fg.lowBits)
+		d = append(d, dcid...)
+		return append(d, payload...)
+	case "handshake":
+		first |= longPacketTypeHandshake
+	case "0rtt":
+		first |= longPacketType0RTT
+	case "initial":
+		first |= longPacketTypeInitial
+	}
+	d = append(d, first|fg.lowBits&0x0f)
+	d = append(d, 0, 0, 0, 1) // QUIC version 1
+	d = append(d, byte(len(dcid)))
+	d = append(d, dcid...)
+	d = append(d, byte(len(scid)))
+	d = append(d, scid...)
+	if fg.kind == "initial" {
+		d = append(d, 0) // token length
+	}
+	d = append(d, 0x40|byte(len(payload)>>8), byte(len(payload))) // length: the rest of the datagram
+	return append(d, payload...)
 }
 
 func qnGhostAddr(i int) netip.AddrPort {
@@ -1483,6 +1649,12 @@ func (r *qnRun) allDone() bool {
 
 func qnRunOnce(t *testing.T, rt *rapid.T, focus string) {
 	p := qnDrawPlan(rt, focus)
+	if focus == "C27" {
+		// relied upon: printed by the driver if they stay at zero
+		vs.G.Add("probe.client_hello_split", 0)
+		vs.G.Add("fault.forged_long_header", 0)
+		vs.G.Add("fault.forged_handshake_between", 0)
+	}
 	tape := vs.DrawTape(rt, 4000)
 	tr := vs.NewTrace()
 	var viol *vs.Violation
@@ -1496,7 +1668,7 @@ func qnRunOnce(t *testing.T, rt *rapid.T, focus string) {
 		r := &qnRun{p: p, sim: sim, tr: tr, log: &qnLog{conns: map[string]*qnConn{}}}
 		r.mon = &qnMon{log: r.log, finished: map[string]*[2]int{"client": {}, "server": {}},
 			srvAddr: netip.MustParseAddrPort("10.0.0.1:443"), recvFrom: map[netip.AddrPort]int64{}, sentTo: map[netip.AddrPort]int64{}, validated: map[netip.AddrPort]bool{},
-			retryAt: map[netip.AddrPort][]time.Duration{}, realClient: map[netip.AddrPort]bool{netip.MustParseAddrPort("10.0.0.2:5000"): true}, requireTok: p.retry, srvConnsBy: map[netip.AddrPort]int{}}
+			retryAt: map[netip.AddrPort][]time.Duration{}, realClient: map[netip.AddrPort]bool{qnRealClientAddr: true}, requireTok: p.retry, srvConnsBy: map[netip.AddrPort]int{}}
 		ctx, cancel := context.WithCancel(context.Background())
 		r.ctx = ctx
 		r.net = vs.NewPacketNet(sim, p.faults)
@@ -1517,6 +1689,9 @@ func qnRunOnce(t *testing.T, rt *rapid.T, focus string) {
 		}
 		tr.Ev("plan focus=%s cfg=%s cli=%+v srv=%+v retry=%v faults={lat=%v jit=%v loss=%d dup=%d reo=%d/%v cor=%d trunc=%d heal=%v part=%v} streams=%d",
 			focus, vs.Config(), p.cli, p.srv, p.retry, p.faults.BaseLatency, p.faults.Jitter, p.faults.LossPct, p.faults.DupPct, p.faults.ReorderPct, p.faults.ReorderMax, p.faults.CorruptPct, p.faults.TruncPct, p.faults.HealAt, p.faults.Partitions, len(p.streams))
+		if p.helloSplit {
+			tr.Ev("plan hello-split srvcurves=%v chain=%d ghosts=%+v forge=%+v linger=%v", p.srvCurvesDef, p.chainExtra, p.ghosts, p.forge, p.linger)
+		}
 
 		spc, err1 := newNetPacketConn(srvNode)
 		cpc, err2 := newNetPacketConn(cliNode)
@@ -1602,6 +1777,18 @@ func qnRunOnce(t *testing.T, rt *rapid.T, focus string) {
 		})
 		sim.Check = r.check
 		sim.Done = r.allDone
+		if p.linger > 0 {
+			sim.AddSource(&qnLinger{at: sim.Start.Add(p.linger)})
+			sim.Done = func() bool {
+				if !r.allDone() {
+					return false
+				}
+				r.mu.Lock()
+				v := r.viol
+				r.mu.Unlock()
+				return v != nil || sim.Elapsed() >= p.linger
+			}
+		}
 		sim.Run()
 		viol = sim.Viol
 		if viol == nil {
@@ -1658,6 +1845,18 @@ func qnRunOnce(t *testing.T, rt *rapid.T, focus string) {
 		viol = nil
 	}
 	vs.Report(rt, viol, tr)
+}
+
+// qnLinger is an event source without events: it only names an instant up to which
+// simulated time is allowed to pass while nothing else is pending.
+type qnLinger struct{ at time.Time }
+
+func (l *qnLinger) Events(time.Time) []vs.Event { return nil }
+func (l *qnLinger) NextTimed(now time.Time) (time.Time, bool) {
+	if now.Before(l.at) {
+		return l.at, true
+	}
+	return time.Time{}, false
 }
 
 // check runs at every quiescent point.
